@@ -12,7 +12,8 @@ MOD = "mc.props.c03"
 TOL = 1e-9   # unit-free identity (DESIGN §5)
 
 SHEAR_PAIRS = [(a, b) for a in range(1, 7) for b in range(a, 7) if b >= 4]
-STRAINS = ["thirds", "const", "extreme", "field", "mixed-rows", "two-equal", "ones", "raw"]
+STRAINS = ["thirds", "const", "extreme", "field", "mixed-rows", "two-equal", "ones", "raw", "int"]
+NTV = [2, 3, 1, 4]      # number of strain rows (3 makes the (ntv,3) array square)
 SCALES = [1.0, 1e-12, 1e-7, 1e9]      # the map is homogeneous: the same tensors on other numeric scales (Ry/bohr^3 values are ~1e-2..1e-12)
 GENERIC = None
 
@@ -42,7 +43,7 @@ def run_case(case):
     from cij.util import c_
     a, b = case["key"]
     key = c_(a, b)
-    v = numpy.array([280.0, 320.0])
+    v = numpy.array([280.0, 320.0, 301.0, 264.0][:case.get("ntv", 2)])
     strain = D.strain_field(case["strain"], v)
     viol = []
     try:
@@ -164,13 +165,14 @@ def run_case(case):
 
 
 def explore(ctx):
-    ctx.rule = ("15 shear-type keys x 8 axial-strain fields (incl. a hydrostatic row among anisotropic rows, two equal fractions, un-normalised triples (1,1,1), (0.9,1,1.2), (2,3,7)); known components handed over in 5 dictionary layouts (asked order, reversed, sorted, all 21 components in two orders); each case "
+    ctx.rule = ("15 shear-type keys x 9 axial-strain fields x 1-4 strain rows (3 rows make the array square; one field has integer dtype) (incl. a hydrostatic row among anisotropic rows, two equal fractions, un-normalised triples (1,1,1), (0.9,1,1.2), (2,3,7)); known components handed over in 5 dictionary layouts (asked order, reversed, sorted, all 21 components in two orders); each case "
                 "runs the solver on the 21 unit tensors, all 210 pairwise sums (linearity is tested, not assumed) and one generic tensor, the "
                 "unit and generic tensors also on the numeric scales 1e-12, 1e-7, 1e9 (homogeneity), with exact components supplied "
                 "from an independent einsum rotation; plus all 48 sign/column-order variants of the frame; complete in "
                 "both tiers; non-trivial = solver evaluated at least once")
     ctx.assumptions = ["numpy einsum/LAPACK", "frame taken from the implementation only after checking it is a real orthonormal eigenbasis of the key's fictitious strain"]
-    cases = [{"key": list(k), "strain": s} for k in SHEAR_PAIRS for s in STRAINS]
+    cases = [{"key": list(k), "strain": s, "ntv": 2} for k in SHEAR_PAIRS for s in STRAINS]
+    cases += [{"key": list(k), "strain": s, "ntv": n} for k in SHEAR_PAIRS for s in ("field", "raw", "int", "mixed-rows") for n in NTV[1:]]
     res = ctx.run(MOD, "run_case", cases, part="basis-exactness", transitions=len(cases) * (232 + 66))
     ctx.notes["solver_evaluations"] = sum(r.get("evals", 0) for r in res)
     ctx.notes["frame_substitutions"] = sum(r.get("subst", 0) for r in res)
